@@ -3,13 +3,21 @@ prop("C15",
                 "(full strength: a full sync, and every step the event handlers are composed of, leaves every non-GLX "
                 "chain, every rule of FORWARD/INPUT/OUTPUT other than the documented base jumps, and every non-GLX "
                 "ipset exactly as it was) and `policy_chains_exact_partial` (a policy batch that reports no failure "
-                "installs exactly the compiled GLX-PLCY-* chains from ANY prior table). The full exactness / "
+                "installs exactly the compiled GLX-PLCY-* chains from ANY prior table), `pod_chain_exact_partial` (per "
+                "SyncPodChains call), `ipset_entries_exact_partial` (one createIPSet step of the CURRENT source leaves "
+                "exactly the compiled entries incl. options from any prior content; the pre-fix variant is "
+                "`full_sync_counter_d21`, D21 fixed in /repo d42b414 and followed through the regenerated fact "
+                "`createIPSetKeepsRekeyedEntries`), `no_dangling_policy_batch_partial` (syncRules can only fail as busy -X "
+                "or create type clash). The full exactness / "
                 "idempotence / no-dangling statements are FALSE for the code: `full_sync_exact_counter_d13`, "
-                "`full_sync_counter_d17`, `full_sync_counter_d21` (each replayed against the real PolicyManager over "
-                "strict fakes; known findings D13, D17, D21). Exactness of ipsets and pod chains, idempotence and "
-                "the no-dangling clause are NOT proved; they are monitored on the real dumps of generated "
-                "histories (prior states = outputs of other cluster states + junk + foreign rules; restart / "
-                "periodic resync / one event per changed object).",
+                "`full_sync_counter_d17` (each replayed against the real PolicyManager over strict fakes; known "
+                "findings D13, D17). End-state exactness of pod chains after the loop over the pods, idempotence of the "
+                "whole state and the no-dangling clause for pod batches are NOT proved; they are monitored on the real "
+                "dumps of generated histories (prior states = outputs of other cluster states + junk + foreign rules; "
+                "restart / periodic resync / one event per changed object / UPDATE transitions on a live manager: "
+                "option-only change of a set member, except added / removed, peer moved between cidr and except, pod "
+                "relabelled, last policy deleted, one failing `ipset create`), including the flow verdicts of the final "
+                "rules vs those of a from-scratch sync.",
      level_note="the sync model (`syncRules`/`syncPods`/`fullSync` over strict primitive semantics at the level of "
                 "structured rules) is hand-written; every sync step of the real code over harness/nf is compared with it "
                 "starting from the REAL prior dump (post-state and failure classes must be equal); the strict iptables / "
